@@ -16,6 +16,34 @@ SCOPE = ("Modelled, not verified: parsing, HIR lowering (body.rs), salsa and the
          "values_names_in_scope (resolver.rs) and the module value table. ")
 
 CHECKS = {
+ "C03": dict(
+  technique="Lean 4 locality theorems for top-level items over the xlate-generated parser model + damage oracle on the implementation",
+  text=("item_suffix_local (the parse of an item depends on nothing before its first token: runs on pre++suf at |pre| and on suf at 0 agree, for "
+        "any DSL program), item_prefix_det (it is determined by the tokens up to maxNth past the token it stops at), glas_lookahead (the generated "
+        "parser looks at most 2 tokens ahead, decided on the regenerated program) (Props/C03.lean). Hence damage confined to one definition cannot "
+        "change the others PROVIDED the damaged definition's parse stops at its own end; that containment is NOT proved (it is false on the "
+        "current tree in 7 recovery sites, recorded as known findings) and is evaluated on the implementation: files of 2-4 reference-grammar "
+        "definitions x victims x up to 1 (3 thorough) token edits from the non-opening classes, every other definition must keep kind and exact "
+        "range and every error must lie in the victim. PARTIAL."),
+  note=TB + SYN, ref="5.C03"),
+ "C10": dict(
+  technique="Lean 4 theorems for the parser part (C02) + exhaustive query sweep (exploration) on damaged workspaces",
+  text=("Proved: the parser, first stage of every query, never fails a precondition assertion, never bumps past the end and terminates, on every "
+        "token list (corollaries of C02's checker soundness, Props/C10.lean). Everything after parsing (lowering, scopes, inference, salsa) is "
+        "EXPLORED, not proved: every query (hover, go-to-definition, references, highlight, completion plain/./@, signature help, prepare-rename, "
+        "rename, diagnostics, semantic highlighting, syntax tree) at every token boundary of every file of generated, damaged, truncated, "
+        "duplicated, import-rewired (cycles, self-imports), degenerate and syntax-soup workspaces, each under catch_unwind, aborts isolated per "
+        "process. PARTIAL; two genuine defects recorded (recursive type alias -> stack overflow, salsa cycle on cyclic imports), one repaired (fix: eb505dd)."),
+  note=TB + "Stack overflow / non-termination are observed as a dead or hanging child process, not modelled.", ref="5.C10"),
+ "C20": dict(
+  technique="Lean 4 proof that node/token ranges of the parse tree are in bounds and on character boundaries + membership monitor on every reported range",
+  text=("ranges_in_bounds, ranges_on_char_boundaries and C20_tree_ranges: whenever the model of parse_module returns a tree for a text, every node "
+        "and token range lies in [0, len] and starts/ends on character boundaries of the text (uses C01_lossless) (Props/C20.lean). Monitor on the "
+        "implementation (harness `sweep`): every range in every answer of every query at every token boundary must be a node or token range of the "
+        "file it names (exactly a token for name-like results: definition focus, references, highlights, rename edits, prepare-rename, semantic "
+        "highlights), inside the text, on character boundaries, in an existing file; the module target (0,0) is the documented empty range. Three "
+        "genuine deviations recorded (focus range of constructors, fields, spread binders is a node, not the name token)."),
+  note=TB + SYN + "That the analysis reports only tree ranges is monitored, not proved.", ref="5.C20"),
  "C06": dict(
   technique="Lean 4 proof of the search layer stated outright (M-search) instantiated with the implementation's own classification + inverse-view oracle",
   text=("refs_iff (membership in references characterised), refs_nodup, refs_closed (asking again from a listed occurrence gives the same set), "
